@@ -15,7 +15,7 @@ RULE = ("(a) real ExtendedDaemonSet Reconciles over random combinations of one t
         "Reconciles of active and canary replica sets on random stores (status counters against the pods listed); (c) histories "
         "in which the real controllers roll out, canary, promote and fail, every intermediate status being checked; (d) histories "
         "(template changes, node churn, commands, a template change under a freeze; a percent canary on a cluster that grows and "
-        "then shrinks below the stale resolved replicas) followed by a fair tail of reconciles of all "
+        "then shrinks below the stale resolved replicas; a pod stuck Terminating on a node that stopped answering) followed by a fair tail of reconciles of all "
         "controllers with a kubelet, the quiescence clause being judged on the store the last two rounds left untouched. "
         "Non-trivial = a status was written.")
 ASSUMPTIONS = [
@@ -76,6 +76,8 @@ def generate(rng, tier, stats):
     out += p_c02.gen_cases(rng, stats, 10 if tier == "quick" else 200)
     for _ in range(6 if tier == "quick" else 60):
         out.append(p_c02.shrinking_cluster_case(rng, stats))
+    for _ in range(6 if tier == "quick" else 60):
+        out.append(p_c02.hung_pod_case(rng, stats))
     return out
 
 
